@@ -339,6 +339,8 @@ fn run_and_check(h: &History, cfg: &Cfg, oracle: &Oracle, events: bool) -> RunRe
 
 enum MiriVerdict {
     Ok(Value),
+    /// the interpreter could not execute the scenario (unsupported operation): no verdict
+    Skipped(String),
     Violation(String, String, Value),
     Harness(String),
 }
@@ -353,6 +355,9 @@ fn miri_check(threads: &[Vec<Value>], miri_seed: u64, rate: &str, cfg: &Cfg, ora
         let e = r.error.unwrap_or_default();
         if e.starts_with("harness:") {
             return MiriVerdict::Harness(e);
+        }
+        if e.starts_with("unsupported:") {
+            return MiriVerdict::Skipped(e);
         }
         return MiriVerdict::Violation("miri:abnormal-termination".into(), format!("the interpreted process did not finish normally: {}", e), Value::Null);
     };
@@ -411,13 +416,14 @@ fn run_miri_batch(miri_n: usize, jobs: usize, small: bool, seed: u64, cfg: &Cfg,
             Ok(()) => {
                 let next = AtomicUsize::new(0);
                 let done = AtomicU64::new(0);
+                let skipped = AtomicU64::new(0);
                 let calls = AtomicU64::new(0);
                 let orders: Mutex<BTreeSet<String>> = Mutex::new(BTreeSet::new());
                 let det: Mutex<(u64, u64)> = Mutex::new((0, 0));
                 let sample: Mutex<Vec<Value>> = Mutex::new(vec![]);
                 std::thread::scope(|s| {
                     for slot in 0..jobs {
-                        let (next, done, calls, orders, det, sample, miri_violations, cfg, oracle, tree, harness_errors) = (&next, &done, &calls, &orders, &det, &sample, &miri_violations, cfg, oracle, tree, &harness_errors);
+                        let (next, done, skipped, calls, orders, det, sample, miri_violations, cfg, oracle, tree, harness_errors) = (&next, &done, &skipped, &calls, &orders, &det, &sample, &miri_violations, cfg, oracle, tree, &harness_errors);
                         s.spawn(move || loop {
                             let i = next.fetch_add(1, Ordering::Relaxed);
                             if i >= miri_n {
@@ -428,6 +434,9 @@ fn run_miri_batch(miri_n: usize, jobs: usize, small: bool, seed: u64, cfg: &Cfg,
                             let v = miri_check(&sc.threads, sc.miri_seed, sc.preemption_rate, cfg, oracle, slot);
                             match v {
                                 MiriVerdict::Harness(e) => harness_errors.lock().unwrap().push(format!("miri batch: {}", e)),
+                                MiriVerdict::Skipped(_) => {
+                                    skipped.fetch_add(1, Ordering::Relaxed);
+                                }
                                 MiriVerdict::Ok(res) => {
                                     done.fetch_add(1, Ordering::Relaxed);
                                     calls.fetch_add(sc.threads.iter().map(|t| t.len() as u64).sum::<u64>(), Ordering::Relaxed);
@@ -462,7 +471,7 @@ fn run_miri_batch(miri_n: usize, jobs: usize, small: bool, seed: u64, cfg: &Cfg,
                 }
                 miri_json = json!({
                     "what": "shipped (guard-off) worker interpreted by Miri; caller threads preempted at basic-block granularity by Miri's scheduler seeded with -Zmiri-seed; every call compared with its fresh-process reference",
-                    "scenarios_run": done.load(Ordering::Relaxed), "calls_checked": calls.load(Ordering::Relaxed),
+                    "scenarios_run": done.load(Ordering::Relaxed), "scenarios_the_interpreter_could_not_execute": skipped.load(Ordering::Relaxed), "calls_checked": calls.load(Ordering::Relaxed),
                     "distinct_scenario_x_call_order": orders.lock().unwrap().len(),
                     "reruns_with_same_seed": d.0, "reruns_that_differed": d.1,
                     "samples": *sample.lock().unwrap(),
@@ -921,6 +930,10 @@ fn main() {
                 }
                 MiriVerdict::Ok(_) => {
                     println!("replay: no violation (under this Miri seed every call equals its fresh-process reference)");
+                    std::process::exit(0);
+                }
+                MiriVerdict::Skipped(e) => {
+                    println!("replay: the interpreter cannot execute this scenario on the current tree ({}); no verdict", e);
                     std::process::exit(0);
                 }
                 MiriVerdict::Violation(class, detail, _) => {
